@@ -1022,17 +1022,65 @@ func (m *cacheModel) checkDoList() {
 			okk, detail = false, "early exit from the snapshot loop"
 		}
 	}
-	// result slice is fresh: the base of the φ-closure is a MakeSlice / new array
-	fresh := false
+	// result slice is fresh: the base of the returned value's φ/append closure is a
+	// slice made in this function (never a field or a parameter), and nothing is
+	// stored into the receiver
+	fresh := true
+	var base func(v ssa.Value, d int) bool
+	seenV := map[ssa.Value]bool{}
+	base = func(v ssa.Value, d int) bool {
+		if seenV[v] || d > 8 {
+			return true
+		}
+		seenV[v] = true
+		switch x := v.(type) {
+		case *ssa.Phi:
+			for _, e := range x.Edges {
+				if !base(e, d+1) {
+					return false
+				}
+			}
+			return true
+		case *ssa.Call:
+			if bi, ok := x.Call.Value.(*ssa.Builtin); ok && bi.Name() == "append" {
+				return base(x.Call.Args[0], d+1)
+			}
+			return false
+		case *ssa.MakeSlice:
+			return true
+		case *ssa.Slice:
+			_, isAlloc := x.X.(*ssa.Alloc)
+			if isAlloc {
+				return true
+			}
+			return base(x.X, d+1)
+		case *ssa.Const:
+			return x.Value == nil
+		}
+		return false
+	}
+	nret := 0
 	for _, b := range fn.Blocks {
 		for _, in := range b.Instrs {
-			switch in.(type) {
-			case *ssa.MakeSlice:
-				fresh = true
-			case *ssa.Alloc:
-				fresh = true
+			switch x := in.(type) {
+			case *ssa.Return:
+				nret++
+				if len(x.Results) != 1 || !base(x.Results[0], 0) {
+					fresh = false
+					detail = "the returned slice is not freshly made in doList (it aliases storage that outlives the call: a later List overwrites a snapshot a caller still holds)"
+				}
+			case *ssa.Store:
+				if fa, ok := x.Addr.(*ssa.FieldAddr); ok {
+					if _, isParam := fa.X.(*ssa.Parameter); isParam {
+						fresh = false
+						detail = "doList stores into the cache struct"
+					}
+				}
 			}
 		}
+	}
+	if nret == 0 {
+		fresh = false
 	}
 	c.check(okk && fresh, rule, "doList/fresh-slice-of-every-entry", pos, "one range over c.items, one append per entry, fresh slice", "doList: "+detail)
 }
